@@ -485,7 +485,13 @@ def compute_statistic(statistic, data, mask=None, axis=None, finite=True,
         function = PLAIN_FUNCTIONS[statistic]
 
     if data.size == 0:
-        return np.nan
+        if axis is None:
+            return np.nan
+        else:
+            # The result should still have the dimensions that are not collapsed
+            axes = axis if isinstance(axis, tuple) else (axis,)
+            shape = [data.shape[idim] for idim in range(data.ndim) if idim not in axes]
+            return np.full(shape, np.nan)
 
     if isinstance(axis, tuple) and len(axis) == 0:
         return data
